@@ -1,6 +1,8 @@
 package vc
 
 import (
+	"go/token"
+	"fmt"
 	"go/types"
 	"strings"
 
@@ -11,10 +13,20 @@ import (
 type famWrite struct {
 	all       bool
 	bases     []ssa.Value // objects written, identified by values defined outside the region
+	fbases    []fieldBase // objects written, identified as the content of a field of such a value
 	freshOnly bool        // besides bases, only objects allocated inside the region are written
 }
 
+// fieldBase: the object held by field `field` of the struct `ptr` points to (ptr is defined
+// outside the region; the field must not be written inside it).
+type fieldBase struct {
+	ptr   ssa.Value
+	strct types.Type
+	field int
+}
+
 type writeSummary struct {
+	why string // first place that made the summary unknown (diagnostics)
 	top  bool
 	fams map[string]*famWrite
 	allocs bool
@@ -34,12 +46,13 @@ func (ws *writeSummary) all(f string) { ws.get(f).all = true }
 func (ws *writeSummary) merge(o *writeSummary) {
 	if o.top {
 		ws.top = true
+		ws.noteTop("merge<" + o.why + ">")
 	}
 	if o.allocs {
 		ws.allocs = true
 	}
 	for f, fw := range o.fams {
-		if fw.freshOnly && !fw.all && len(fw.bases) == 0 {
+		if fw.freshOnly && !fw.all && len(fw.bases) == 0 && len(fw.fbases) == 0 {
 			// the callee writes only objects it allocated itself
 			ws.get(f).freshOnly = true
 			continue
@@ -96,6 +109,13 @@ func (ws *writeSummary) write(fam string, base ssa.Value, region map[*ssa.BasicB
 			return
 		}
 	}
+	if un, ok := base.(*ssa.UnOp); ok && un.Op == token.MUL && region != nil {
+		if fa, ok := un.X.(*ssa.FieldAddr); ok && baseKind(fa.X, region) == 0 && baseKind(base, region) != 0 {
+			fw := ws.get(fam)
+			fw.fbases = append(fw.fbases, fieldBase{fa.X, deref(fa.X.Type()), fa.Field})
+			return
+		}
+	}
 	fw := ws.get(fam)
 	switch baseKind(base, region) {
 	case 0:
@@ -113,6 +133,16 @@ func (ws *writeSummary) write(fam string, base ssa.Value, region map[*ssa.BasicB
 
 // summarizeInstr adds the effects of one instruction.
 func (c *Ctx) summarizeInstr(ws *writeSummary, fn *ssa.Function, ins ssa.Instruction, depth int, region map[*ssa.BasicBlock]bool) {
+	// ghost updates attached to this instruction by the contract (site ... set g(...))
+	if ct := c.Contracts[c.FuncKey(fn)]; ct != nil && len(ct.SiteSets) > 0 {
+		if si, ok := c.sitesOf(fn)[ins]; ok {
+			for _, cl := range ct.SiteSets[fmt.Sprintf("%s#%d", si.class, si.ord)] {
+				if cl.Expr != nil && cl.Expr.Op == "call" {
+					ws.all("GH|" + cl.Expr.Text)
+				}
+			}
+		}
+	}
 	switch x := ins.(type) {
 	case *ssa.Store:
 		c.summarizeStore(ws, x.Addr, region)
@@ -257,6 +287,7 @@ func (c *Ctx) summarizeCall(ws *writeSummary, fn *ssa.Function, call *ssa.CallCo
 		}
 		if c.isRepoType(call.Value.Type()) {
 			ws.top = true
+			ws.noteTop("summary.go:259")
 			return
 		}
 		c.summarizeExternArgs(ws, call, region)
@@ -303,6 +334,7 @@ func (c *Ctx) summarizeCall(ws *writeSummary, fn *ssa.Function, call *ssa.CallCo
 		return
 	}
 	ws.top = true
+	ws.noteTop("summary.go:305")
 }
 
 func (c *Ctx) summarizeStatic(ws *writeSummary, f *ssa.Function, call *ssa.CallCommon, depth int, region map[*ssa.BasicBlock]bool) {
@@ -328,6 +360,7 @@ func (c *Ctx) summarizeStatic(ws *writeSummary, f *ssa.Function, call *ssa.CallC
 	}
 	if depth > 6 {
 		ws.top = true
+		ws.noteTop("summary.go:330")
 		return
 	}
 	ws.merge(c.funcSummary(f, depth+1))
@@ -360,9 +393,23 @@ func (c *Ctx) funcSummary(f *ssa.Function, depth int) *writeSummary {
 	return s
 }
 
+// fieldMapType returns the map type of an annotated field key "<struct type key>|<field>".
+func (c *Ctx) fieldMapType(k string) *types.Map {
+	return c.fieldMapTypes[k]
+}
+
 func (c *Ctx) summarizeGuarded(ws *writeSummary, call *ssa.CallCommon) {
 	// every guarded field of every annotated struct becomes unstable
 	for k, fm := range c.FieldAnnos {
+		if fm.Contents != "" {
+			if mt := c.fieldMapType(k); mt != nil {
+				dfam, _ := c.famMapDom(mt)
+				vfam, _ := c.famMapVal(mt)
+				ws.all(dfam)
+				ws.all(vfam)
+				ws.all(famMapLen)
+			}
+		}
 		if fm.Mode != "guarded_by" {
 			continue
 		}
@@ -370,6 +417,7 @@ func (c *Ctx) summarizeGuarded(ws *writeSummary, call *ssa.CallCommon) {
 		ws.all("H|" + k[:i] + "|" + k[i+1:])
 		if fm.Deep {
 			ws.top = true
+			ws.noteTop("summary.go:386")
 		}
 	}
 }
@@ -382,12 +430,14 @@ func (c *Ctx) summarizeContract(ws *writeSummary, ct *Contract) {
 			return
 		}
 		ws.top = true
+		ws.noteTop("summary.go:398")
 		return
 	}
 	for _, m := range ct.Modifies {
 		switch {
 		case m == "heap" || m == "everything":
 			ws.top = true
+			ws.noteTop("summary.go:404")
 		case strings.HasPrefix(m, "ghost "):
 			ws.all("GH|" + strings.TrimSpace(m[6:]))
 		case strings.HasPrefix(m, "chan "), strings.HasPrefix(m, "guarded "):
@@ -399,6 +449,7 @@ func (c *Ctx) summarizeContract(ws *writeSummary, ct *Contract) {
 		default:
 			// object-level items are resolved at the call site; at summary level be conservative
 			ws.top = true
+			ws.noteTop("summary.go:415")
 		}
 	}
 }
@@ -476,6 +527,32 @@ func (c *Ctx) applyHavoc(st *State, fr *Frame, ws *writeSummary, region map[*ssa
 				continue
 			}
 		}
+		// objects named through a field: resolve them now, unless the field itself changes in the region
+		var fterms []Term
+		fbAll := false
+		for _, fb := range fw.fbases {
+			ffam, _ := c.famField(fb.strct, fb.field)
+			if w, ok := ws.fams[ffam]; ok && (w.all || len(w.bases) > 0 || len(w.fbases) > 0 || w.freshOnly) {
+				fbAll = true
+				break
+			}
+			pt, ok := c.reg(fr, fb.ptr, st).(Term)
+			if !ok {
+				fbAll = true
+				break
+			}
+			si := c.Reg.StructInfo(fb.strct)
+			l := &Loc{Kind: LocField, Base: pt, Struct: fb.strct, Field: fb.field, Type: si.ftypes[fb.field], Root: si.ftypes[fb.field]}
+			ft := c.LoadLoc(st, l, false)
+			if ft.Sort == SSlice {
+				ft = T(SInt, "(sl_arr %s)", ft.S)
+			}
+			fterms = append(fterms, ft)
+		}
+		if fbAll {
+			c.HavocFam(st, fam)
+			continue
+		}
 		old := c.Arr(st, fam, sort)
 		if fw.freshOnly {
 			// objects allocated before the region keep their contents
@@ -487,6 +564,9 @@ func (c *Ctx) applyHavoc(st *State, fr *Frame, ws *writeSummary, region map[*ssa
 			for _, b := range fw.bases {
 				bt := c.baseRef(st, fr, b)
 				excl = append(excl, "(not (= "+x+" "+bt.S+"))")
+			}
+			for _, ft := range fterms {
+				excl = append(excl, "(not (= "+x+" "+ft.S+"))")
 			}
 			cond := "(select " + al.S + " " + x + ")"
 			if len(excl) > 0 {
@@ -504,6 +584,13 @@ func (c *Ctx) applyHavoc(st *State, fr *Frame, ws *writeSummary, region map[*ssa
 				st.Assume(T(SBool, "(>= %s 0)", v.S))
 			}
 			cur = Store(cur, bt, v)
+		}
+		for _, ft := range fterms {
+			v := c.FreshConst(st, "hv", arrayElem(sort))
+			if fam == famMapLen {
+				st.Assume(T(SBool, "(>= %s 0)", v.S))
+			}
+			cur = Store(cur, ft, v)
 		}
 		c.SetArr(st, fam, cur)
 	}
@@ -547,6 +634,7 @@ func (c *Ctx) summarizeTypeItem(ws *writeSummary, m string) {
 	t, err := c.resolveType(pkg, txt)
 	if err != nil {
 		ws.top = true
+		ws.noteTop("summary.go:563")
 		return
 	}
 	if kind == "elems" {
@@ -562,6 +650,7 @@ func (c *Ctx) summarizeTypeItem(ws *writeSummary, m string) {
 		return
 	}
 	ws.top = true
+	ws.noteTop("summary.go:578")
 }
 
 // summarizeContractAt translates a modifies clause at a call site: items that name a
@@ -601,6 +690,37 @@ func (c *Ctx) summarizeContractAt(ws *writeSummary, ct *Contract, f *ssa.Functio
 					continue
 				}
 			}
+			if i := strings.IndexByte(rest, '.'); i > 0 {
+				// map p.f: the map held by a field of a parameter (all maps of that type, conservatively)
+				if a := argOf(rest[:i]); a != nil {
+					if sty, ok := deref(a.Type()).Underlying().(*types.Struct); ok {
+						done := false
+						for k := 0; k < sty.NumFields(); k++ {
+							if sty.Field(k).Name() == rest[i+1:] {
+								if mt, ok := sty.Field(k).Type().Underlying().(*types.Map); ok {
+									d, _ := c.famMapDom(mt)
+									v, _ := c.famMapVal(mt)
+									if region != nil && baseKind(a, region) == 0 {
+										fb := fieldBase{a, deref(a.Type()), k}
+										for _, f := range []string{d, v, famMapLen} {
+											fw := ws.get(f)
+											fw.fbases = append(fw.fbases, fb)
+										}
+									} else {
+										ws.all(d)
+										ws.all(v)
+										ws.all(famMapLen)
+									}
+									done = true
+								}
+							}
+						}
+						if done {
+							continue
+						}
+					}
+				}
+			}
 		case "fam":
 			ws.all(strings.TrimSpace(rest))
 			continue
@@ -633,5 +753,13 @@ func (c *Ctx) summarizeContractAt(ws *writeSummary, ct *Contract, f *ssa.Functio
 			}
 		}
 		ws.top = true
+		ws.noteTop("summary.go:649")
+	}
+}
+
+
+func (ws *writeSummary) noteTop(where string) {
+	if ws.why == "" {
+		ws.why = where
 	}
 }
